@@ -19,7 +19,8 @@ RULE = ("Generated configurations (N 0..200, 80% <= 12; masses incl. exact zeros
         "built from the case and ax,ay,az are compared with an O(N^2) reference written from the documentation (numpy longdouble; "
         "cross-checked against an independent mpmath loop for N<=8), tolerance (n_terms+16)*eps*sum|terms| (16*eps*sum|terms| "
         "for COMPENSATED).  TREE theta>0: equality with the Barnes-Hut sum predicted from a geometric octree + the multipole "
-        "bound.  JACOBI additionally: one WHFast step with gravity=jacobi equals the step through gravity=basic + interaction-step "
+        "bound.  TREE theta=0 also after generated histories (leapfrog steps, in-place edits of mass/position/radius/softening/G "
+        "between steps; reference from the current particle data; sum m a = 0).  JACOBI additionally: one WHFast step with gravity=jacobi equals the step through gravity=basic + interaction-step "
         "Jacobi term.  Non-trivial = N>=3 and at least one of: test particles present, ignore_terms != 0, ghost boxes, a zero-mass "
         "body, a tree with >= 2 levels and an accepted cell, an encounter mask / changeover weight with both 0 and 1 entries.  "
         "Distinct by case hash.")
@@ -41,7 +42,7 @@ ASSUMPTIONS = [
 ]
 CLASSES = ["direct/basic", "direct/compensated", "direct/testparticles_type0", "direct/testparticles_type1",
            "direct/ignore1", "direct/ignore2", "direct/ghost", "direct/shear", "direct/zero_mass", "direct/softened",
-           "direct/N>50", "direct/N_active=0", "direct/momentum", "tree_theta0/ghost", "tree_bound/prediction_checked",
+           "direct/N>50", "direct/N_active=0", "direct/momentum", "tree_theta0/ghost", "tree_history/mass_edit_after_steps", "tree_history/edit_nudge", "tree_bound/prediction_checked",
            "tree_bound/bound_checked", "tree_bound/apriori_bound_checked", "mercurius_split/two_part_identity",
            "mercurius_split/partial_encounter_map", "mercurius_split/pairs_in_changeover", "trace_split/two_part_identity",
            "trace_split/K_mixed", "jacobi_whfast_step/massless_testparticles", "documented_partition/tree",
@@ -410,6 +411,139 @@ def run_tree0(case, ctx):
     classify(c, m, ctx, extra_nt=N >= 3)
     nterms = mask.sum(axis=1) * len(shifts)
     compare(got, acc, cond, nterms, 16, 1, "gravity=tree, opening_angle2=0", ctx, "tree0_err/tol")
+
+
+# ---------------------------------------------------------------------------------------
+# tree, zero opening angle, after a history: the force must follow the CURRENT particle data
+
+hist_op = st.one_of(
+    st.tuples(st.just("steps"), st.integers(1, 3)),
+    st.tuples(st.just("mass"), st.integers(0, 63), st.sampled_from([0.0, 0.5, 2.0, 10.0, 1e-6, 1.0])),
+    st.tuples(st.just("mass"), st.integers(0, 63), S.logfloats(1e-3, 1e3)),
+    st.tuples(st.just("newmass"), st.integers(0, 63), S.logfloats(1e-6, 1.0)),
+    st.tuples(st.just("nudge"), st.integers(0, 63), st.tuples(S.floats(-1, 1), S.floats(-1, 1), S.floats(-1, 1)),
+              st.sampled_from([1e-9, 1e-6, 1e-3])),
+    st.tuples(st.just("radius"), st.integers(0, 63), S.floats(0.0, 0.01)),
+    st.tuples(st.just("soft"), st.sampled_from([0.0, 1e-3, 0.05])),
+    st.tuples(st.just("G"), st.sampled_from(G_VALUES)),
+)
+tree_hist_case = st.fixed_dictionaries({
+    "cfg": config(force_box=True, all_active=True, nmax=24, small_frac=0.7),
+    "ops": st.lists(hist_op, min_size=2, max_size=8),
+    "dt_frac": st.sampled_from([1e-4, 1e-3, 1e-2]),
+})
+
+
+def run_tree_history(case, ctx):
+    import numpy as np
+    import warnings
+    from ..oracles import c02_forces_ref as R
+    warnings.simplefilter("ignore")
+    c = dict(case["cfg"])
+    pos, m = expand(c)
+    N = c["N"]
+    if N < 2:
+        ctx.skip("N<2")
+        return
+    if not distinct_positions(pos):
+        ctx.skip("two particles with identical coordinates cannot be added to the tree (documented error)")
+        return
+    sim = build_sim(c, "tree", pos, m, extra={"opening_angle2": 0.0})
+    sim.integrator = "leapfrog"
+    b = c["box"]
+    L3 = [b["size"] * b[k] for k in ("rx", "ry", "rz")]
+    Mtot = sum(m)
+    tdyn = math.sqrt(min(L3) ** 3 / (c["G"] * Mtot)) if Mtot > 0 else 1.0
+    sim.dt = case["dt_frac"] * tdyn
+    edited = set()
+    nev = [0]
+
+    def evaluate(where):
+        n = sim.N
+        ps = sim.particles
+        for i in range(n):
+            if any(abs(v) > L3[k] / 2 for k, v in enumerate((ps[i].x, ps[i].y, ps[i].z))):
+                return False                 # a body left the box: what happens next is the boundary module's business (C15)
+        prepare_tree(sim)                    # the documented tree update of reb_simulation_step
+        if sim.N != n:
+            raise Violation("tree update changed N from %d to %d although every particle is inside the box (%s)" % (n, sim.N, where))
+        ps = sim.particles
+        cpos = [[ps[i].x, ps[i].y, ps[i].z] for i in range(n)]
+        cm = [ps[i].m for i in range(n)]
+        if not distinct_positions(cpos):
+            return False
+        cc = dict(c, G=sim.G, soft=sim.softening)
+        if "t" in c:
+            cc["t"] = sim.t
+        shifts = image_shifts(cc, sim, ctx)
+        mask = R.acts_matrix(n, -1, 0, 0)
+        acc, cond, rmin2 = reference(cc, cpos, cm, mask, shifts, ctx)
+        if not np.all(np.isfinite(acc.astype(float))) or not np.all(np.isfinite(cond)):
+            return False
+        update_acc(sim)
+        got = read_acc(sim)
+        nterms = mask.sum(axis=1) * len(shifts)
+        compare(got, acc, cond, nterms, 16, 1, "gravity=tree theta=0 %s vs reference from the current particle data" % where, ctx,
+                "treehist_err/tol", where=where)
+        mm = np.array(cm, dtype=np.longdouble)
+        P = np.sum(mm[:, None] * got.astype(np.longdouble), axis=0)
+        tol = (n * len(shifts) + 16 + n) * EPS * float(np.sum(mm * cond))
+        pm = float(np.max(np.abs(P)))
+        if tol > 0:
+            ctx.stat_max("treehist_momentum/tol", pm / tol)
+        if pm > tol:
+            raise Violation("gravity=tree theta=0 %s: all particles active but sum m_i a_i = %r (tolerance %.3g)"
+                            % (where, P.astype(float).tolist(), tol), where=where)
+        nev[0] += 1
+        return True
+
+    stepped = False
+    for k, o in enumerate(case["ops"]):
+        kind = o[0]
+        n = sim.N
+        if n < 2:
+            break
+        if kind == "steps":
+            # time step from the current masses and G: bodies should mostly stay inside their cells
+            Mnow = sum(sim.particles[i].m for i in range(n))
+            sim.dt = case["dt_frac"] * (math.sqrt(min(L3) ** 3 / (sim.G * Mnow)) if Mnow > 0 else 1.0)
+            try:
+                sim.steps(o[1])
+            except RuntimeError:
+                ctx.skip("a body left the box during the steps (library reports it)")
+                return
+            stepped = True
+            continue
+        if kind == "mass":
+            p = sim.particles[o[1] % n]
+            p.m = p.m * o[2]
+        elif kind == "newmass":
+            sim.particles[o[1] % n].m = c["m0"] * o[2]
+        elif kind == "nudge":
+            p = sim.particles[o[1] % n]
+            p.x += o[2][0] * o[3] * b["size"]
+            p.y += o[2][1] * o[3] * b["size"]
+            p.z += o[2][2] * o[3] * b["size"]
+        elif kind == "radius":
+            sim.particles[o[1] % n].r = o[2] * b["size"]
+        elif kind == "soft":
+            sim.softening = o[1] * b["size"]
+        elif kind == "G":
+            sim.G = o[1]
+        edited.add(kind)
+        ctx.cls("edit_" + kind)
+        if not evaluate("after op %d (%s)" % (k, kind)):
+            ctx.skip("state outside the asserted domain (body left the box / coincident / overflow)")
+            return
+    if not evaluate("at the end of the history"):
+        ctx.skip("state outside the asserted domain (body left the box / coincident / overflow)")
+        return
+    if stepped:
+        ctx.cls("stepped")
+    classify(c, m, ctx)
+    if stepped and (edited & {"mass", "newmass"}) and N >= 3:
+        ctx.cls("mass_edit_after_steps")
+        ctx.nontrivial()
 
 
 # ---------------------------------------------------------------------------------------
@@ -1078,5 +1212,6 @@ def subs(tier):
         Sub("switching_functions", run_switching, strategy=switch_case, quick=2000, thorough=40000, shards_quick=4,
             shards_thorough=8, journal=False),
         Sub("trace_split", run_trace, strategy=trace_case, quick=1000, thorough=40000, shards_quick=8, shards_thorough=16),
+        Sub("tree_history", run_tree_history, strategy=tree_hist_case, quick=320, thorough=16000, shards_quick=8, shards_thorough=16),
         Sub("tree_bound", run_tree, strategy=tree_case, quick=640, thorough=24000, shards_quick=8, shards_thorough=16),
     ]
